@@ -12,9 +12,13 @@ import Driver.Util
 
     exit lint|breaking <controller steps> <check steps>
     exit build <controller steps>
-    exit format <exit-code flag 0|1> <controller steps> <format step> <diff 0|1> <output step>
         steps: string over o (ok) a (annotation set) i (import not found) x (other error); "-" = none
       -> exit=<n> printed=<0|1> failure=<0|1>
+    exit format <mode> <source writable 0|1> <controller steps> <format step> <diff 0|1>
+                <copy-diff step> <rewrite step> <output step>
+        <mode> = subset of the letters d (-d) w (-w) o (-o <dir or .proto file>) e (--exit-code); "-" = plain
+      -> exit=<n> printed=<0|1> failure=<0|1> stdout=<n|d|s|b> rewrote=<0|1> wrote=<0|1>
+         stdout: n nothing, d the diff, s the formatted source, b both
 -/
 namespace Driver.C20
 open BufModel.Annot Driver
@@ -93,6 +97,18 @@ def decStep (s : String) : Option Step :=
 def decBool (s : String) : Option Bool :=
   if s = "1" then some true else if s = "0" then some false else none
 
+def decMode (s : String) : Option FmtMode :=
+  let cs := if s = "-" then [] else s.toList
+  if cs.all (fun c => c = 'd' || c = 'w' || c = 'o' || c = 'e') && cs.eraseDups.length = cs.length then
+    some { diff := cs.contains 'd', write := cs.contains 'w',
+           out := if cs.contains 'o' then .path else .stdout, exitCode := cs.contains 'e' }
+  else none
+
+def showEffects (e : FmtEffects) : String :=
+  let so := match e.stdoutDiff, e.stdoutSource with
+    | false, false => "n" | true, false => "d" | false, true => "s" | true, true => "b"
+  "stdout=" ++ so ++ " rewrote=" ++ (if e.rewrote then "1" else "0") ++ " wrote=" ++ (if e.wroteOut then "1" else "0")
+
 def showOutcome (o : Outcome) : String :=
   "exit=" ++ toString o.exit ++ " printed=" ++ (if o.printed.isEmpty then "0" else "1")
     ++ " failure=" ++ (if o.failureLine then "1" else "0")
@@ -107,9 +123,12 @@ def handle : List String → String
       | some c, some k => showOutcome (lintLike c k) | _, _ => "bad-op"
   | ["exit", "build", c] => match decSteps c with
       | some c => showOutcome (build c) | none => "bad-op"
-  | ["exit", "format", fl, c, f, d, o] => match decBool fl, decSteps c, decStep f, decBool d, decStep o with
-      | some fl, some c, some f, some d, some o => showOutcome (format fl c f d o)
-      | _, _, _, _, _ => "bad-op"
+  | ["exit", "format", m, sw, c, f, d, cp, rw, o] =>
+      match decMode m, decBool sw, decSteps c, decStep f, decBool d, decStep cp, decStep rw, decStep o with
+      | some m, some sw, some c, some f, some d, some cp, some rw, some o =>
+        let r := formatFull m sw c f d { copyDiff := cp, rewrite := rw, output := o }
+        showOutcome r.1 ++ " " ++ showEffects r.2
+      | _, _, _, _, _, _, _, _ => "bad-op"
   | _ => "bad-op"
 
 def run : IO Unit := runLines handle
